@@ -15,9 +15,18 @@ Counted(r) == {e \in Elems(r) \ UIgnored(r) : Datum(r, e) # NONE}
 Sc(r, e) == LET S == {s \in ToSet(r.escale) : s[1] = e} IN IF S = {} THEN <<1, 1>> ELSE LET s == CHOOSE s \in S : TRUE IN <<s[2], s[3]>>
 Inner(r) == {v \in ToSet(r.nodes) : In(UGraph(r), v) # {} /\ Out(UGraph(r), v) # {}} \ (ToSet(r.starts) \cup ToSet(r.ends))
 
+(* a witness: edge values (parallel to r.edges, in the units of r.ew) the composer of the instance claims to be an admissible flow -
+   the claim is re-validated here (non-negative, conserving at every inner node); the closest flow is then at most as far away *)
+HasWitness(r) == "wit_ew" \in DOMAIN r /\ r.wit_ew # <<>> /\ ~NodeM(r) /\ r.lam = <<0, 1>> /\ r.eps = <<0, 1>>
+WitVal(r, e) == r.wit_ew[EIdx(r, e)]
+WitnessIsAFlow(r) ==
+  /\ \A e \in ToSet(r.edges) : WitVal(r, e) >= 0
+  /\ \A v \in Inner(r) : SumOver(In(UGraph(r), v), LAMBDA e : WitVal(r, e)) = SumOver(Out(UGraph(r), v), LAMBDA e : WitVal(r, e))
+WitnessCost100(r) == SumOver(Counted(r), LAMBDA e : (Abs(Fx(r, Datum(r, e)) - Fx(r, WitVal(r, e))) * Sc(r, e)[1] * 100) \div Sc(r, e)[2])
 Clauses(r) == IF r.solved = TRUE /\ r.sol_exc = "none"
               THEN {"Solved", "SameGraph", "NonNegative", "ErrorRecomputed", "ObjectiveRecomputed"}
                    \cup (IF ~NodeM(r) /\ \A e \in ToSet(r.edges) : Datum(r, e) # NONE THEN {"Conservation"} ELSE {})
+                   \cup (IF HasWitness(r) THEN {"NoWorseThanWitness"} ELSE {})
               ELSE {"Solved"}
 Holds(c, r) ==
   CASE c = "Solved" -> r.ctor_exc = "none" /\ r.solve_exc = "none" /\ r.solved = TRUE /\ r.sol_exc = "none"
@@ -33,6 +42,8 @@ Holds(c, r) ==
          r.lam = <<0, 1>> =>
          Abs(r.c_obj * 100 - SumOver(Counted(r), LAMBDA e : (Abs(Fx(r, Datum(r, e)) - CVal(r, e)) * Sc(r, e)[1] * 100) \div Sc(r, e)[2]))
             <= (Tol(r) * (1 + Cardinality(Counted(r))) + 1) * 100
+    [] c = "NoWorseThanWitness" ->
+         WitnessIsAFlow(r) => r.c_obj * 100 <= WitnessCost100(r) + (Tol(r) * (1 + Cardinality(Counted(r))) + 1) * 100
 Fails(r) == {c \in Clauses(r) : ~Holds(c, r)}
 Init == /\ tid \in DOMAIN Recs /\ PrintT(<<"VERDICT", Recs[tid].id, Clauses(Recs[tid]), Fails(Recs[tid])>>)
 Next == FALSE /\ tid' = tid
